@@ -388,3 +388,84 @@ def dataclass_field_invariants(ctx):
                     problems.append(f"metadata tag is {md.get('tag')!r} for tag={tag}")
                 rows.append({"ok": not problems, "case": case, "message": "; ".join(problems), "line": fdf.node.lineno})
     return rows
+
+
+NUMERIC_NEVER_NULL = {"int8", "int16", "int32", "int64", "uint16", "uint32", "uint64", "float64"}
+
+
+def field_nullability_grid(ctx):
+    """G9: PrimitiveField.is_nullable(version) and _BaseField.get_tag(version) over a finite grid of definitions.
+    Reference (message-definition README + kio's documented modelling): a field is tagged in version v iff
+    taggedVersions contains v; it is nullable in v iff nullableVersions contains v, or (kio) it is tagged *in v*,
+    ignorable and has no default, or (kio) it is a datetime with default -1; numeric primitives never."""
+    I = ctx.interp
+    pm = _mod(ctx, "codegen.parser")
+    PF = pm.env.vars.get("PrimitiveField")
+    VR = _mod(ctx, "codegen.versions").env.vars.get("VersionRange")
+    if not isinstance(PF, ClassV) or not isinstance(VR, ClassV):
+        raise AnalysisError("anchor vanished: codegen.parser.PrimitiveField / codegen.versions.VersionRange")
+    P, members = primitive_members(ctx)
+    INF = float("inf")
+    rows = []
+    ranges = {"none": None, "2+": (2, INF), "1-2": (1, 2)}
+    for m in members:
+        for tv_name in ("none", "2+"):
+            for nv_name in ("none", "1-2"):
+                for ignorable in (False, True):
+                    for default in (None, "-1"):
+                        tv, nv = ranges[tv_name], ranges[nv_name]
+                        mk = lambda r: None if r is None else I.call(VR, [r[0], r[1]], {}, Run(), None)
+                        inst = InstV(PF, {"name": "Fld", "type": m, "versions": mk((0, INF)), "nullableVersions": mk(nv), "ignorable": ignorable,
+                                          "mapKey": False, "about": None, "entityType": None, "tag": None if tv is None else 0,
+                                          "taggedVersions": mk(tv), "default": default})
+                        for version in (0, 1, 2, 3):
+                            case = (f"Primitive.{m.name} taggedVersions={tv_name} nullableVersions={nv_name} ignorable={ignorable} "
+                                    f"default={default!r} version={version}")
+                            tagged = tv is not None and tv[0] <= version <= tv[1]
+                            want_tag = 0 if tagged else None
+                            want_null = m.name not in NUMERIC_NEVER_NULL and (
+                                (tagged and ignorable and default is None) or (nv is not None and nv[0] <= version <= nv[1])
+                                or (m.name == "datetime_i64" and default == "-1"))
+                            for meth, want in (("get_tag", want_tag), ("is_nullable", want_null)):
+                                try:
+                                    got = I.call(I.getattr_(inst, meth, Run(), None), [version], {}, Run(), None)
+                                except Raised as r:
+                                    rows.append({"ok": False, "case": case, "method": meth, "message": f"{meth} raises {short_exc(r.cls)}"})
+                                    continue
+                                except Limit as e:
+                                    raise AnalysisError(f"PrimitiveField.{meth} not understood: {e}")
+                                if not (got is None or isinstance(got, (bool, int))):
+                                    raise AnalysisError(f"PrimitiveField.{meth}({case}) is not evaluated to a constant: {got!r}")
+                                rows.append({"ok": got == want and type(got) is type(want), "case": case, "method": meth,
+                                             "message": f"{meth}({version}) is {got!r} for {case}; the definition gives {want!r}"})
+    return rows
+
+
+def bool_default_spellings(ctx):
+    """G10: format_default(bool, s) for the accepted spellings.  Kafka's generator compares the default of a bool
+    case-insensitively with "true"/"false"; the parser hands on "true"/"false" (strings) and "True"/"False" (a bare
+    JSON literal coerced to str by the model)."""
+    I = ctx.interp
+    gs = _mod(ctx, "codegen.generate_schema")
+    fd = gs.env.vars.get("format_default")
+    P, members = primitive_members(ctx)
+    b = next((m for m in members if m.name == "bool_"), None)
+    if not isinstance(fd, FuncV) or b is None:
+        raise AnalysisError("anchor vanished: codegen.generate_schema.format_default / Primitive.bool_")
+    rows = []
+    for s in ("true", "false", "True", "False"):
+        for optional in (False, True):
+            case = f"format_default(Primitive.bool_, {s!r}, optional={optional})"
+            try:
+                got = I.call(fd, [b, s, optional, None], {}, Run(), None)
+            except Raised as r:
+                rows.append({"ok": False, "case": case, "message": f"{case} raises {short_exc(r.cls)}: the definition is rejected", "line": fd.node.lineno})
+                continue
+            except Limit as e:
+                raise AnalysisError(f"format_default not understood: {e}")
+            if not isinstance(got, str):
+                raise AnalysisError(f"{case} is not evaluated to a constant string: {got!r}")
+            want = "True" if s.lower() == "true" else "False"
+            rows.append({"ok": got.strip() == want, "case": case, "line": fd.node.lineno,
+                         "message": f"{case} emits {got!r}; the definition's default is {want}"})
+    return rows
